@@ -256,3 +256,4 @@ def check_beam(case, rec):
 
 
 SUBS.append(Sub("beam", check_beam, gen=beam_cases, quick=80, thorough=800, shards=4))
+READY = True
